@@ -18,6 +18,10 @@ class Gen:
         self.script_len = 0
         self.depth = 0
         self.ql = opts.get("lreg")   # a Q register written ONLY by load/add, never by set
+        # operand registers of two-qubit gates: with `perm` a third register joins the pool and every gate
+        # picks its two operand registers (and their order) afresh, so the same qubit id (in particular the
+        # electron, id 0) is addressed through different Q registers by different gates of one subroutine
+        self.qregs = [self.qa, self.qb] + ([opts["perm"]] if opts.get("perm") else [])
 
     # ---- emission
     def e(self, *t):
@@ -58,7 +62,8 @@ class Gen:
             self.e("set", self.qa, i)
             self.e("q", "qalloc", self.qa)
             self.e("q", "init", self.qa)
-        self.e("set", self.qb, 0)
+        for r in self.qregs[1:]:
+            self.e("set", r, 0)
         self.e("set", ("C", 1), 1)
         self.e("set", ("R", 0), 4)
         self.e("array", ("R", 0), 0)
@@ -101,13 +106,32 @@ class Gen:
         g = rng.choice(self.o.get("g2", ["cnot", "cphase"]))
         if g == "mov" and a != 0 and b != 0:
             b = 0
-        if rng.random() < 0.5:
-            self.e("set", self.qa, a)
-            self.e("set", self.qb, b)
+        if len(self.qregs) > 2:
+            ra, rb = rng.sample(self.qregs, 2)
         else:
-            self.e("set", self.qb, b)
-            self.e("set", self.qa, a)
-        self.e("g2", g, self.qa, self.qb)
+            ra, rb = self.qa, self.qb
+        if rng.random() < 0.5:
+            self.e("set", ra, a)
+            self.e("set", rb, b)
+        else:
+            self.e("set", rb, b)
+            self.e("set", ra, a)
+        self.e("g2", g, ra, rb)
+
+    def ce_pair(self):
+        """two carbon->electron gates of one subroutine that address the electron (id 0) through
+        DIFFERENT Q registers"""
+        rng = self.rng
+        r1, r2, r3 = rng.sample(self.qregs, 3)
+        g = rng.choice(self.o.get("g2", ["cnot", "cphase"]))
+        self.e("set", r1, 0)
+        self.e("set", r2, rng.randint(1, self.nc))
+        self.e("g2", "cnot" if "cnot" in self.o.get("g2", ["cnot"]) else g, r2, r1)
+        if rng.random() < 0.5:
+            self.gate1()
+        self.e("set", r1, rng.randint(1, self.nc))
+        self.e("set", r3, 0)
+        self.e("g2", g, r1, r3)
 
     def gate_load(self):
         """Q register written by load (qubit id table in array @1)"""
@@ -237,6 +261,8 @@ class Gen:
             w += [("gate_load", 4)]
         if self.ql:
             w += [("luse", 5)]
+        if len(self.qregs) > 2:
+            w += [("ce_pair", 2)]
         tot = sum(x[1] for x in w)
         r = rng.uniform(0, tot)
         for name, wt in w:
@@ -258,6 +284,11 @@ def gen_program(rng, opts=None, size=None):
         pool, opts["lreg"] = rng.choice([((("Q", 0), ("Q", 1)), ("Q", 2)), ((("Q", 1), ("Q", 2)), ("Q", 0)),
                                          ((("Q", 0), ("Q", 2)), ("Q", 1)), ((("Q", 1), ("Q", 0)), ("Q", 2)),
                                          ((("Q", 0), ("Q", 1)), ("Q", 5))])
+    if opts.get("perm") is True:
+        if opts.get("lreg"):
+            opts["perm"] = None
+        else:
+            opts["perm"] = next(("Q", i) for i in range(16) if ("Q", i) not in pool)
     g = Gen(rng, nc, pool, opts)
     g.prologue()
     n = size if size is not None else rng.randint(2, 7)
@@ -276,7 +307,7 @@ def gen_program(rng, opts=None, size=None):
         g.e("ret_arr", 0)
         g.e("ret_reg", ("M", 0))
     prog = g.resolve()
-    return prog, dict(ncarbons=nc, script_len=g.script_len, pool=[g.qa, g.qb], lreg=g.ql)
+    return prog, dict(ncarbons=nc, script_len=g.script_len, pool=[g.qa, g.qb], lreg=g.ql, perm=opts.get("perm"))
 
 
 def mentioned_regs(prog):
